@@ -15,7 +15,9 @@
 EXTENDS PieCore
 
 Diag == {"cyclic", "hidden", "overlap"}
-WFFams == {"WF", "FAULT", "ABORT", "IDENT", "TWOCHK"}   \* families whose programs are well-formed in every state
+\* families whose programs are well-formed in every state (TWOCHK programs use two checkers on one target and are
+\* outside the domain of C01-C04; they exist for C08's recorded finding K2)
+WFFams == {"WF", "FAULT", "ABORT", "IDENT"}
 
 V(cond, tag) == IF cond THEN {} ELSE {tag}
 NoFrame == [t |-> 0, bad |-> FALSE, err |-> FALSE, ex |-> FALSE, seq |-> <<>>]
@@ -202,7 +204,7 @@ OnPanic(P, m, st, e) ==
       v20 == IF kind \in Diag /\ ~scratchAborts /\ ~selfInflicted /\ (m.exp.kind # kind \/ m.exp.kf = "")
              THEN {<<IF m.aborted THEN "C19" ELSE "C20", "spurious_" \o kind>>} ELSE {}
       k20 == IF kind \in Diag /\ ~scratchAborts /\ m.exp.kind = kind /\ m.exp.kf # ""
-             THEN {<<IF m.aborted THEN "C19" ELSE "C20", m.exp.kf>>} ELSE {}
+             THEN {<<"C20", m.exp.kf>>} ELSE {}      \* role-inversion findings are C20's, also after an earlier abort
       \* C06-3: re-execution of the same writer is never an overlap
       v063 == IF kind = "overlap" /\ m.exp.kind # "overlap" THEN {<<"C06", "self_overlap">>} ELSE {}
       \* internal errors
@@ -251,8 +253,11 @@ OnRequireEnd(P, m, st, e) ==
       \* a validation that saw an inconsistent (or failing) dependency must have executed the task
       vInc == IF f.t = u /\ f.bad /\ ~f.ex
               THEN {<<IF f.err THEN "C18" ELSE "C09", "inconsistent_dependency_reused">>} ELSE {}
+      \* the task was really validated (not just found in the session's consistent set, which a bottom-up require of an
+      \* unaffected task also fills)
+      validatedNow == f.t = u /\ (f.ex \/ f.seq # <<>> \/ (u \in Tasks(st) /\ st.deps[u] = <<>>))
       m1 == [m EXCEPT !.vstk = IF @ = <<>> THEN @ ELSE Front(@), !.validated = @ \cup {u},
-                      !.staleTD = IF m.build = "td" THEN @ \ {u} ELSE @,
+                      !.staleTD = IF m.build = "td" /\ validatedNow THEN @ \ {u} ELSE @,
                       !.lastReqEnd = [t |-> u, o |-> e.o]]
   IN R(Bump(m1, "C09"), vF \cup vStamp \cup vVal \cup vInc)
 
@@ -367,8 +372,9 @@ OnCheckTaskStart(P, m, st, e) ==
 
 OnCheckTaskEnd(P, m, st, e) ==
   LET fu == TopF(m)
+      validatedNow == fu.t = e.t /\ (fu.ex \/ fu.seq # <<>> \/ (e.t \in Tasks(st) /\ st.deps[e.t] = <<>>))
       m1 == [m EXCEPT !.vstk = IF @ = <<>> THEN @ ELSE Front(@), !.validated = @ \cup {e.t},
-                      !.staleTD = IF m.build = "td" THEN @ \ {e.t} ELSE @]
+                      !.staleTD = IF m.build = "td" /\ validatedNow THEN @ \ {e.t} ELSE @]
       f == TopF(m1)
       inc == e.t \in Tasks(st) /\ OInc(e.c, st.out[e.t], e.s)
       v == V(fu.t = e.t, <<"C17", "check_task_frame">>)
@@ -423,7 +429,7 @@ OnExecStart(P, m, st, e) ==
                ELSE V(f.t = t, <<"C17", "execution_outside_validation">>)
                     \cup V(f.t # t \/ st.out[t] = NONE \/ f.bad,
                            <<own, "unjustified_execution">>)
-      vIdem == IF ~isBU /\ m.clean /\ m.curRoot \in m.prevRoots /\ ~m.aborted /\ m.fault = {} /\ P.fam \in WFFams
+      vIdem == IF ~isBU /\ m.clean /\ m.curRoot \in m.prevRoots /\ ~m.aborted /\ m.fault = {} /\ P.fam \in WFFams /\ m.staleTD = {}
                THEN {<<"C02", "not_idempotent">>} ELSE {}
       \* C03: a probe after a complete bottom-up build executes nothing (K1: stale after top-down-then-bottom-up)
       probeExec == m.probe /\ m.buOk /\ ~isBU /\ P.fam \in WFFams /\ m.fault = {}
